@@ -302,6 +302,9 @@ _TABLE: List[Tuple[str, Tuple[str, ...], bool, Any]] = [
     ("(a, b)", ("a", "b"), True, lambda a, b: (a, b)),
     ("a if a > b else b", ("a", "b"), True, lambda a, b: a if a > b else b),
     ("min(a, 3)", ("a",), True, lambda a, b: a if a <= 3 else 3),
+    # + is only commutative on numbers: these two share an ExpressionSigV1 signature but not a value
+    ("(a,) + (b,)", ("a", "b"), True, lambda a, b: (a, b)),
+    ("(b,) + (a,)", ("a", "b"), True, lambda a, b: (b, a)),
     ("str(len)", (), False, None),
     ("a.real", ("a",), False, None),
     ("a[0]", ("a",), False, None),
@@ -362,6 +365,8 @@ def _make_e2(p):
             assume(i2 == i1 and n2 == n1 and same_evaluator)
         elif mode == "same":
             assume(i1 == fixed and i2 == fixed)
+        elif mode == "pair2":
+            assume(i1 == fixed[0] and i2 == fixed[1])
         else:
             assume(i1 == fixed)
         return _e2_body(i1, n1, i2, n2, same_evaluator, a, b, via_factory)
@@ -457,10 +462,10 @@ def obligations(tier: str) -> List[Ob]:
             oid="C11.E2",
             make=_make_e2,
             replay=_replay_e2,
-            params=[("single", None)] + [("same", i) for i in range(len(_TABLE))] + ([("pair", i) for i in range(len(_TABLE))] if tier == "thorough" else []),
+            params=[("single", None)] + [("same", i) for i in range(len(_TABLE))] + [("pair2", (i, j)) for i in range(len(_TABLE)) for j in range(len(_TABLE)) if i != j and _TABLE[i][0].startswith(("(a,)", "(b,)")) and _TABLE[j][0].startswith(("(a,)", "(b,)"))] + ([("pair", i) for i in range(len(_TABLE))] if tier == "thorough" else []),
             budget=240 if tier == "quick" else 1200,
-            bound="compile() as the unit: 16 expression texts x 6 declared-name sets (symbolic indices), variable values a,b symbolic ints (evaluation compared with a reference for all values); "
-            "compile reached directly or through ParametricSweepFactory.create (symbolic flag); sequences of 2 compile() calls on the same text with symbolic name sets and same/fresh evaluator (quick), any ordered pair of texts (thorough)",
+            bound="compile() as the unit: 18 expression texts x 6 declared-name sets (symbolic indices), variable values a,b symbolic ints (evaluation compared with a reference for all values); "
+            "compile reached directly or through ParametricSweepFactory.create (symbolic flag); sequences of 2 compile() calls on the same text with symbolic name sets and same/fresh evaluator (quick), the two tuple-concatenation texts (same signature, different value) in both orders (quick), any ordered pair of texts (thorough)",
             targets=["semantiva/utils/safe_eval.py:ExpressionEvaluator.compile"],
         )
     )
